@@ -89,6 +89,10 @@ def has_shell(context):
                     result = bool(val.elts)
                 elif isinstance(val, ast.Dict):
                     result = bool(val.keys)
+                elif isinstance(val, (ast.Tuple, ast.Set)):
+                    result = bool(val.elts)
+                elif isinstance(val, (ast.Str, ast.Bytes)):
+                    result = bool(val.s)
                 elif isinstance(val, ast.Name) and val.id in ["False", "None"]:
                     result = False
                 elif isinstance(val, ast.NameConstant):
